@@ -28,23 +28,28 @@ for pid in ids:
         groups.setdefault((o.func, o.clause, str(what)), o)
     res = {"no_replay": [], "confirmed_on_proved_tree": [], "crash": [], "ok": 0, "no_model": 0}
     for key, o in list(groups.items())[: int(os.environ.get("AUDIT_MAX", "400"))]:
+      for k in range(int(os.environ.get("AUDIT_MODELS", "1"))):       # several different models of the same path condition (solver seeds)
         s = z3.Solver()
         s.set("timeout", 5000)
+        s.set("random_seed", 7 * k + 1)
+        s.set("phase_selection", 5 if k else 3)
         s.add(*(list(o.assumptions or []) + list(getattr(o, 'range_facts', None) or [])))
         if s.check() != z3.sat:
             res["no_model"] += 1
-            continue
+            break
         try:
             payload = cli.mk_payload(run, mod, o, s.model())
             payload = json.loads(json.dumps(payload, default=str))
             r = mod.replay(payload)
         except Exception as e:
             res["crash"].append((o.name, "%s: %s" % (type(e).__name__, str(e)[:200]), traceback.format_exc().splitlines()[-3:]))
-            continue
+            break
         if r.get("error"):
             res["no_replay"].append((o.name, str(r.get("error"))[:160]))
+            break
         elif r.get("confirmed"):
             res["confirmed_on_proved_tree"].append((o.name, json.dumps(r, default=str)[:300]))
+            break
         else:
             res["ok"] += 1
     bad = len([x for x in res["no_replay"] if "/lemma." not in x[0] and "lemma" not in x[1]]) + len(res["crash"])
